@@ -18,13 +18,18 @@ CHECKS['C20'] = {
             'per-backend paging plan (all at once, one at a time, random sizes, rotating order) and, in 40%, one fault at a generated '
             'call (error, no-progress page once or for ever, premature empty page, repeated item); 5 object types. Non-trivial = a '
             'federated query over >=2 clusters that needed several pages or met a fault, or an unsplittable multi-cluster query, or '
-            'an unknown cluster; distinct = fingerprint of (type, filters, options, page limit, class, complete call log).',
+            'an unknown cluster; distinct = fingerprint of (type, filters, options, page limit, class, complete call log). Round 2: about 1.5% '
+            'of the cases give one cluster (local or remote) 65-200 requested objects paged out 1 or 2 at a time (more than 64 / 100 / 128 '
+            'pages from one backend; labels big:*); a third of the cases carry a select list ([uuid], [owner_uuid], [name,modified_by_user_uuid], '
+            '[uuid,name], [], ...) and 70% of the backends honour it the way the API does (unselected fields zero, uuid included).',
     'assumptions': [
         'lib/controller/localdb/login_pam.go is replaced at build time by a PAM-free stand-in (missing C header in the sandbox)',
         'honest backends honour the uuid filter they are given; a premature empty page is undetectable by design (result only checked for soundness); a backend repeating already delivered items is outside the stated paging behaviours (termination only)',
         'single-remote queries with count/limit/offset/order are not "spanning several clusters": a rejection must precede any call, an answer must be sound',
         'ill-typed uuid operands: outcome adopted',
-        'termination is judged by the number of recorded backend calls (bound n+1 per backend; stubs stop a runaway loop after 120 calls), never by the clock',
+        'termination is judged by the number of recorded backend calls (bound n+1 per backend; stubs stop a runaway loop after 450 calls), never by the clock',
+        'returned items are identified by uuid; when a backend honoured a select list without modified_by_client_uuid the per-item origin tag is absent and "from its home cluster" rests on the call log (each backend is only ever asked for its own uuids)',
+        'an empty select list means "all fields" to the stub backends',
     ],
     'units': [
         unit('list', 'federation_c20', '^TestVerifC20', {'shards': 8, 'checks': 2000}, {'shards': 16, 'checks': 600000, 'timeout': 3000}),
